@@ -24,6 +24,7 @@ import (
 	"sort"
 	"strconv"
 	"strings"
+	"sync"
 	"sync/atomic"
 	"time"
 
@@ -66,6 +67,10 @@ type caseT struct {
 	Recovery bool    `json:",omitempty"` // recovery.New() in front of the compression middleware
 	Pre      [][2]string `json:",omitempty"` // headers an outer middleware sets before the chain goes on
 	Prog     []opT
+	// overlap kind: this case is member Idx of Group — requests served at the same time by ONE router and
+	// ONE middleware instance (options of member 0), their handlers advancing one operation at a time in turn
+	Group []caseT `json:",omitempty"`
+	Idx   int     `json:",omitempty"`
 }
 
 // primT is one primitive call on the ResponseWriter (the model's alphabet).
@@ -519,6 +524,101 @@ func realRun(k *caseT, withMW bool, nw []int) respT {
 	})
 	var h http.Handler = r
 	curHandler.Store(&h)
+	return fetch(k, res, done, nw)
+}
+
+// turns makes the handlers of an overlap group advance one operation at a time, round robin
+// (deterministic interleaving, no sleeps).
+type turns struct {
+	mu     sync.Mutex
+	cond   *sync.Cond
+	turn   int
+	active []bool
+}
+
+func newTurns(n int) *turns {
+	t := &turns{active: make([]bool, n)}
+	for i := range t.active {
+		t.active[i] = true
+	}
+	t.cond = sync.NewCond(&t.mu)
+	return t
+}
+func (t *turns) advance() {
+	for j := 1; j <= len(t.active); j++ {
+		n := (t.turn + j) % len(t.active)
+		if t.active[n] {
+			t.turn = n
+			break
+		}
+	}
+	t.cond.Broadcast()
+}
+func (t *turns) wait(i int) {
+	t.mu.Lock()
+	for t.turn != i {
+		t.cond.Wait()
+	}
+	t.mu.Unlock()
+}
+func (t *turns) pass(i int) {
+	t.mu.Lock()
+	if t.turn == i {
+		t.advance()
+	}
+	t.mu.Unlock()
+}
+func (t *turns) finish(i int) {
+	t.mu.Lock()
+	t.active[i] = false
+	if t.turn == i {
+		t.advance()
+	}
+	t.mu.Unlock()
+}
+
+type turnHook struct {
+	t *turns
+	i int
+}
+
+func (h turnHook) begin(*opT) { h.t.wait(h.i) }
+func (h turnHook) end(*opT)   { h.t.pass(h.i) }
+
+// overlapRun serves all members of the group at the same time through one router and one instance of
+// the compression middleware.
+func overlapRun(group []caseT, nws [][]int) []respT {
+	r := router.MustNew()
+	r.Use(compression.New(buildOpts(group[0].Opt)...))
+	t := newTurns(len(group))
+	res := make([]*runRes, len(group))
+	done := make([]chan struct{}, len(group))
+	for i := range group {
+		i := i
+		res[i] = &runRes{}
+		done[i] = make(chan struct{})
+		r.GET(group[i].Path, func(c *router.Context) {
+			defer close(done[i])
+			defer t.finish(i)
+			runProg(c, group[i].Prog, res[i], turnHook{t, i}, nws[i])
+		})
+	}
+	var h http.Handler = r
+	curHandler.Store(&h)
+	out := make([]respT, len(group))
+	var wg sync.WaitGroup
+	for i := range group {
+		wg.Add(1)
+		go func(i int) {
+			defer wg.Done()
+			out[i] = fetch(&group[i], res[i], done[i], nws[i])
+		}(i)
+	}
+	wg.Wait()
+	return out
+}
+
+func fetch(k *caseT, res *runRes, done chan struct{}, nw []int) respT {
 	req, err := http.NewRequest(http.MethodGet, srvURL+k.Path, nil)
 	if err != nil {
 		panic(err)
@@ -529,7 +629,7 @@ func realRun(k *caseT, withMW bool, nw []int) respT {
 	resp, err := client.Do(req)
 	select {
 	case <-done:
-	case <-time.After(10 * time.Second):
+	case <-time.After(15 * time.Second):
 		panic("handler did not return")
 	}
 	if res.Panic {
@@ -719,8 +819,49 @@ func modelTag() string {
 	return "N"
 }
 
+// emit runs one case (alone) and renders its line.
 func emit(id string, k *caseT, st *hx.Stats) string {
+	if len(k.Group) > 0 {
+		// replay of one member of an overlap group: the whole group runs again, this member's line is printed
+		return emitGroup(id, k.Group, st, k.Idx)[0]
+	}
 	prims, nw := dryRun(k)
+	plain := realRun(k, false, nw)
+	with := realRun(k, true, nw)
+	return render(id, k, prims, plain, with, st, k)
+}
+
+// emitGroup runs the members overlapped (and each one alone without the middleware) and renders one
+// line per member (only member `only` when only >= 0). Ids are <id>-o<i>.
+func emitGroup(id string, group []caseT, st *hx.Stats, only int) []string {
+	prims := make([][]primT, len(group))
+	nws := make([][]int, len(group))
+	plains := make([]respT, len(group))
+	for i := range group {
+		group[i].Opt = group[0].Opt // one middleware instance
+		prims[i], nws[i] = dryRun(&group[i])
+		plains[i] = realRun(&group[i], false, nws[i])
+	}
+	withs := overlapRun(group, nws)
+	var out []string
+	for i := range group {
+		if only >= 0 && i != only {
+			continue
+		}
+		mid := id
+		if only < 0 {
+			mid = fmt.Sprintf("%s-o%d", id, i)
+		}
+		full := &caseT{Group: group, Idx: i}
+		out = append(out, render(mid, &group[i], prims[i], plains[i], withs[i], st, full))
+		if st != nil {
+			st.Count("overlap_member")
+		}
+	}
+	return out
+}
+
+func render(id string, k *caseT, prims []primT, plain, with respT, st *hx.Stats, comment *caseT) string {
 	l := hx.NewLine(id).Tok(modelTag())
 	o := k.Opt
 	l.Nat(o.MinSize).Bool(!o.NoGzip).Bool(!o.NoBr).Strs(o.ExclCT).Strs(o.ExclPaths).Strs(o.ExclExts)
@@ -750,21 +891,26 @@ func emit(id string, k *caseT, st *hx.Stats) string {
 		l.Tok(encBytes(e[0])).Bytes(e[1])
 	}
 	l.Nat(len(prims))
-	nWrites, explicit, nFlush, total := 0, false, 0, 0
+	nWrites, explicit, nFlush, total, lateEdit := 0, false, 0, 0, false
+	committed := false
 	for _, p := range prims {
 		l.Tok(p.K)
 		switch p.K {
 		case "H":
 			l.Str(p.Key).Strs(p.Vals)
+			lateEdit = lateEdit || committed
 		case "D":
 			l.Str(p.Key)
+			lateEdit = lateEdit || committed
 		case "W":
 			l.Nat(p.Code)
 			explicit = true
+			committed = true
 		case "B":
 			l.Tok(encBytes(p.Data))
 			nWrites++
 			total += len(p.Data)
+			committed = true
 		case "C":
 			l.Nat(len(p.Chunks))
 			for _, c := range p.Chunks {
@@ -772,13 +918,13 @@ func emit(id string, k *caseT, st *hx.Stats) string {
 				total += len(c)
 			}
 			nWrites += len(p.Chunks)
+			committed = true
 		case "F":
 			nFlush++
+			committed = true
 		}
 	}
 	in := l.String()
-	plain := realRun(k, false, nw)
-	with := realRun(k, true, nw)
 	l.Sep()
 	writeResp(l, plain)
 	writeResp(l, with)
@@ -808,6 +954,12 @@ func emit(id string, k *caseT, st *hx.Stats) string {
 		if nFlush > 0 {
 			st.Count("has_flush")
 		}
+		if lateEdit {
+			st.Count("header_edit_after_commit")
+		}
+		if k.AE != nil && strings.Contains(*k.AE, "Q=") {
+			st.Count("ae_uppercase_weight")
+		}
 		if len(k.Pre) > 0 {
 			st.Count("outer_headers")
 		}
@@ -828,7 +980,7 @@ func emit(id string, k *caseT, st *hx.Stats) string {
 		}
 		st.Count("nprims_" + strconv.Itoa(min(len(prims), 12)))
 	}
-	return l.String() + hx.Comment(k)
+	return l.String() + hx.Comment(comment)
 }
 
 func main() {
@@ -843,7 +995,19 @@ func main() {
 		for i, k := range fixedCases() {
 			fmt.Fprintln(w, emit(fmt.Sprintf("c15-fix-%d", i), k, st))
 		}
+		for i, g := range fixedGroups() {
+			for _, line := range emitGroup(fmt.Sprintf("c15-fixg-%d", i), g, st, -1) {
+				fmt.Fprintln(w, line)
+			}
+		}
 		for i := 0; i < a.N; i++ {
+			if os.Getenv("C15_MODEL") != "asis" && i%25 == 7 {
+				// overlap kind: 2–3 requests at the same time through one middleware instance
+				for _, line := range emitGroup(fmt.Sprintf("c15-%d-%d", a.Seed, i), genGroup(r), st, -1) {
+					fmt.Fprintln(w, line)
+				}
+				continue
+			}
 			k := genCase(r, a.Tier)
 			fmt.Fprintln(w, emit(fmt.Sprintf("c15-%d-%d", a.Seed, i), k, st))
 		}
